@@ -10,7 +10,6 @@ import (
 	"fmt"
 	"io"
 	"net"
-	"os"
 	"sync"
 	"sync/atomic"
 	"testing"
@@ -615,9 +614,9 @@ func (c *vh10QConn) Close() error {
 }
 
 // vh10Desync: call A is answered with a complete frame one byte longer than msize whose payload looks like
-// frames; B and C are ordinary calls that the server answers correctly.  Run only when the source remembers
-// the receiver's connection error (ClientGen.recv_error_marks_dead; see fixes/C10-recv-error-not-remembered.md):
-// then B and C must fail at once.  Without it C hangs (recorded finding).
+// frames; B and C are ordinary calls that the server answers correctly.  The receiver remembers its connection
+// error (commit 91df8ef, fixes/C10-recv-error-not-remembered.md): B and C fail at once, without being sent.
+// Before that commit B read the middle of A's frame and C hung.
 func vh10Desync(t *testing.T, o *vhOut, id int) {
 	cc, sc := net.Pipe()
 	defer sc.Close()
@@ -829,10 +828,9 @@ func TestVerifC10(t *testing.T) {
 		vh10Early(t, o, id)
 		id++
 	}
-	if os.Getenv("VERIF_C10_MARKS") == "1" {
-		vh10Desync(t, o, id)
-		id++
-	}
+	// (f) later calls after a frame the receiver rejected (commit 91df8ef)
+	vh10Desync(t, o, id)
+	id++
 	// (e) fid discipline: fixed corpus, then random scripts
 	for _, sc := range [][]string{
 		{"lost", "ok", "ok"}, {"ok", "lost", "clunk-ok", "ok", "ok"}, {"refused", "ok", "lost", "refused", "ok"},
